@@ -135,13 +135,17 @@ func (st *c19State) afterBlock(w *World) {
 		}
 		name := a.Chain + "/" + w.NameOf(a.Address)
 		// window sums from the chain's own records as of just before the block
-		var complaints, serviced uint64
+		var complaints, serviced, servicedInComplaintEpochs uint64
 		for i, ep := range window {
+			rk := c19RecKey(ep, a.Chain, a.Address)
 			if uint64(i) < nCompl {
-				complaints += sn.compl[c19RecKey(ep, a.Chain, a.Address)]
+				complaints += sn.compl[rk]
 			}
 			if uint64(i) < nServ {
-				serviced += sn.serv[c19RecKey(ep, a.Chain, a.Address)]
+				serviced += sn.serv[rk]
+				if _, has := sn.compl[rk]; has {
+					servicedInComplaintEpochs += sn.serv[rk] // used only to name the failure signature
+				}
 			}
 		}
 		jailed := a.JailEndTime != b.JailEndTime && a.JailEndTime > now
@@ -150,7 +154,7 @@ func (st *c19State) afterBlock(w *World) {
 				switch {
 				case complaints == 4*serviced:
 					r.Probe("c19_spared_at_exact_threshold")
-				case complaints > 4*serviced && errH == nil && (b.Jails > 0 || b.StakeAppliedBlock <= minHistory):
+				case complaints > 4*serviced && errW == nil && errH == nil && (b.Jails > 0 || b.StakeAppliedBlock <= minHistory):
 					r.Probe("c19_spared_although_over_threshold") // the min-providers guard (or nothing else) held it back
 				case complaints > 4*serviced:
 					r.Probe("c19_spared_short_history")
@@ -173,6 +177,10 @@ func (st *c19State) afterBlock(w *World) {
 		sig := "complaints<=4x-serviced"
 		if complaints == 4*serviced {
 			sig = "complaints==4x-serviced"
+		}
+		if complaints <= 4*serviced && complaints > 4*servicedInComplaintEpochs {
+			sig = "serviced-cu-of-epochs-without-complaint-record-ignored"
+			r.Probe("c19_jailed_ignoring_serviced_cu_of_quiet_epochs")
 		}
 		r.Check(errW == nil && complaints > 4*serviced, "c19-jail-not-justified", sig, "epoch start %d: %s was jailed, but over the checked window %v (complaints: first %d epochs, serviced CU: first %d epochs) the chain's records just before the block hold complaints=%d and serviced=%d (4x = %d); window error: %v", h, name, window, nCompl, nServ, complaints, serviced, 4*serviced, errW)
 		if complaints == 4*serviced+1 {
@@ -198,9 +206,13 @@ func (st *c19State) afterBlock(w *World) {
 		// (4) repeated jails within a day escalate to a frozen hard jail
 		hist := st.jails[k]
 		within := 1
+		earliest := now
 		for _, t := range hist {
 			if now-t <= 24*3600 {
 				within++
+				if t < earliest {
+					earliest = t
+				}
 			}
 		}
 		st.jails[k] = append(hist, now)
@@ -212,7 +224,7 @@ func (st *c19State) afterBlock(w *World) {
 		}
 		if within > pairingkeeper.SOFT_JAILS {
 			sig := "no-voluntary-unfreeze-in-between"
-			if t, ok := st.unfrozeAt[k]; ok && len(hist) > 0 && t >= hist[len(hist)-1] {
+			if t, ok := st.unfrozeAt[k]; ok && t >= earliest {
 				sig = "after-voluntary-freeze-and-unfreeze"
 			}
 			r.Check(hard && a.JailEndTime >= now+int64(pairingkeeper.HARD_JAIL_TIME), "c19-no-escalation", sig, "epoch start %d: %s was jailed for the %d. time within 24h (earlier jail times %v, now %d) but the jail is not a frozen hard jail (frozen=%v jailEnd=%d jails=%d)", h, name, within, hist, now, hard, a.JailEndTime, a.Jails)
